@@ -20,20 +20,23 @@ def impl_syllabify(ons, vow, sep, filling, text, strip, tolerant):
     return call_impl(f)
 
 
-def render_utt(words, sep, with_phones):
+def render_utt(words, sep, with_phones, wide=False):
     """words: list of list of single-character phones"""
     p, s, w = sep
     if with_phones and p:
         if w == ' ':
             return ''.join(''.join(ph + p for ph in word) + w for word in words)
         return ''.join(''.join(ph + p for ph in word) + w for word in words)
+    if wide and w == ' ':
+        # irregular white space between the words of an utterance written without phone separators
+        return '  '.join(''.join(word) for word in words)
     return w.join(''.join(word) for word in words) + (w if w != ' ' else '')
 
 
 _BLANK_RNG = __import__('random').Random(14)
 
 
-def make_case(ons, vow, sep, filling, words_per_utt, with_phones, strip, tolerant, family, valid, blanks=None):
+def make_case(ons, vow, sep, filling, words_per_utt, with_phones, strip, tolerant, family, valid, blanks=None, wide=False):
     words_per_utt = [list(ws) for ws in words_per_utt]
     if blanks is None:
         blanks = _BLANK_RNG.random() < 0.35 and len(words_per_utt) > 0
@@ -43,7 +46,7 @@ def make_case(ons, vow, sep, filling, words_per_utt, with_phones, strip, toleran
         for _ in range(_BLANK_RNG.randint(1, 2)):
             words_per_utt.insert(_BLANK_RNG.randint(0, len(words_per_utt)), [])
         family = family + '+blank'
-    text = [render_utt(ws, sep, with_phones) if ws else _BLANK_RNG.choice(['', '  ', '\t']) for ws in words_per_utt]
+    text = [render_utt(ws, sep, with_phones, wide) if ws else _BLANK_RNG.choice(['', '  ', '\t']) for ws in words_per_utt]
     vowel_chars = set(vow)
 
     def oracle(out):
@@ -366,6 +369,10 @@ def main():
             ck.count('bundled_sep:%r' % (sep,))
             ck.count('bundled_filling:%s' % filling)
             cases.append(make_case(ons, vow, sep, filling, utts, with_phones, rng.random() < 0.5, tolerant, fam, valid))
+            if not with_phones and sep[2] == ' ' and k < 8:
+                # the same utterances with runs of spaces between the words (a phone level may be defined although the text
+                # has no phone separator): same words, same syllables
+                cases.append(make_case(ons, vow, sep, filling, utts, False, k % 2 == 0, tolerant, fam + '-wide-spaces', valid, wide=True))
     # malformed stream: syllable separator already present, empty lists, undefined levels (correspondence only)
     extra = [(['b'], ['a'], (';', '_', ' '), False, ['ba_ ba'], False, False),
              ([], ['a'], (';', '_', ' '), False, ['ba'], False, False),
